@@ -146,6 +146,20 @@ theorem extendLin_right_both (a : ℕ → K) (m n : ℕ) (ls rs : Option K) (i :
     simp [extendLinLeft, h, h']
   simp [extendLin, extendLinRight, Direction.hasLeft, Direction.hasRight, e1, e2]
 
+/-- direction `both` for any `m ≥ 1`, in terms of the left-extended array `A` (what the Python code
+literally computes: the default `rstop` is `2 * A[-1] - A[-n-1]`) -/
+theorem extendLin_right_both_general (a : ℕ → K) (m n : ℕ) (ls rs : Option K) (i : ℕ) (hm : 1 ≤ m) :
+    extendLin a m n .both ls rs (m + n + i)
+      = a (m - 1) + ((i : K) + 1)
+          * ((rs.getD (2 * a (m - 1) - extendLin a m n .left ls none (m - 1)) - a (m - 1))
+              / (n : K)) := by
+  have e1 : extendLinLeft a n ls (m + n - 1) = a (m - 1) := by
+    have h : ¬ m + n - 1 < n := by omega
+    have h' : m + n - 1 - n = m - 1 := by omega
+    simp [extendLinLeft, h, h']
+  have e2 : m + n - 1 - n = m - 1 := by omega
+  simp [extendLin, extendLinRight, Direction.hasLeft, Direction.hasRight, e1, e2]
+
 /-- the very last element is `rstop'` -/
 theorem extendLin_right_last (a : ℕ → K) (m n : ℕ) (ls rs : Option K) (hn : n ≠ 0) :
     extendLin a m n .right ls rs (m + (n - 1)) = rs.getD (2 * a (m - 1) - a (m - 1 - n)) := by
@@ -226,6 +240,14 @@ theorem appendOne_strictIncr (x : ℕ → K) (m : ℕ) (hm : 2 ≤ m) (h : Stric
 theorem Interval.get_ok (a : ℕ → K) (len n i j : ℕ) (h : i * n + j < len) :
     Interval.get a len n (i : ℤ) (j : ℤ) = .ok (a (i * n + j)) := by
   rw [Interval.get, Interval.flat_natCast, Interval.pyIndex_natCast h]; rfl
+
+/-- the same with integer indices `0 ≤ i`, `0 ≤ j` -/
+theorem Interval.get_ok_int (a : ℕ → K) (len n : ℕ) (i j : ℤ) (hi : 0 ≤ i) (hj : 0 ≤ j)
+    (h : i.toNat * n + j.toNat < len) :
+    Interval.get a len n i j = .ok (a (i.toNat * n + j.toNat)) := by
+  obtain ⟨i', rfl⟩ := Int.eq_ofNat_of_zero_le hi
+  obtain ⟨j', rfl⟩ := Int.eq_ofNat_of_zero_le hj
+  exact Interval.get_ok a len n i' j' h
 
 /-- the negative second index the strategies use: `a[i, -j]` reads flat index `i * n - j` -/
 theorem Interval.get_ok_neg (a : ℕ → K) (len n i j : ℕ) (hj : j ≤ i * n) (h : i * n - j < len) :
@@ -362,6 +384,12 @@ theorem Interval.to2dClosed_entry (a : ℕ → K) (len n r : ℕ) (hn : 0 < n) :
   · intro hr
     have : ¬ r + 1 < Interval.rows len n := by omega
     simp [Interval.to2dClosed, this]
+
+/-- `drop_last` removes the last row -/
+theorem Interval.rowsClosed_eq (len n : ℕ) :
+    Interval.rowsClosed len n true = Interval.rows len n - 1 ∧
+      Interval.rowsClosed len n false = Interval.rows len n := by
+  simp [Interval.rowsClosed]
 
 /-- a full row has `n` present entries -/
 theorem Interval.rowCount_full (len n r : ℕ) (h : (r + 1) * n ≤ len) :
